@@ -11,6 +11,11 @@ CHECKS = {
    technique="stateless model checking of the implementation (iterative context bounding, controlled scheduler, line-level preemption)",
    design="6/C19"),
 }
+CHECKS["C05"] = dict(
+   text="Bounded exhaustive exploration of the real ExecutionState checkpoint pipeline (create_checkpoint producers against checkpoint_batches_forever) under a controlled scheduler with virtual time: 1-3 producers, update sequences over sync/async x small/large/oversize/empty, batcher configs, every schedule within 2 (quick) / 3 (thorough) deviations including 'batch-window timeout fires first'; oracle on the recorded API calls: exactly-once, order is a linear extension of hand-over order, token chain, limits, every synchronous caller released.",
+   note="Trusted: virtual Queue/Event/Lock (conformance self-test), the recording service client; update size measured as the SDK measures it. Deviation budgets per config are in the evidence.",
+   technique="stateless model checking of the implementation (deviation-bounded DFS over thread and timer choices, virtual time)",
+   design="6/C05")
 NOT_YET = {}
 
 def main():
